@@ -798,7 +798,7 @@ func diffStrings(a, b []string) []string {
 func init() {
 	register("E10", func(tier string, seed uint64) []Case {
 		var cases []Case
-		n := tierPick(tier, 8, 150)
+		n := tierPick(tier, 8, 600)
 		for _, k := range e10Joins {
 			for i := 0; i < n; i++ {
 				cases = append(cases, e10Case(k, seed, i))
